@@ -9,10 +9,11 @@ use tower_resilience_timelimiter::{TimeLimiterError, TimeLimiterLayer};
 type MkFn = Box<dyn FnMut(&Req) -> CallFut>;
 pub struct TimeLimiterAd {
     mkf: Option<MkFn>,
+    sib: Vec<Sibling>,
 }
 impl TimeLimiterAd {
     pub fn new() -> Self {
-        TimeLimiterAd { mkf: None }
+        TimeLimiterAd { mkf: None, sib: vec![] }
     }
 }
 fn map_res(r: Result<Resp, TimeLimiterError<IErr>>) -> Out {
@@ -43,7 +44,7 @@ impl Adapter for TimeLimiterAd {
         // T: fixed timeout (ms); perReq = 1: timeout is key ms (keys 1..5); ord: builder call order
         let cancel = rng.below(2);
         // lazy = 1: the executor may poll late (only explored for the deterministic cancel mode)
-        json!({"T": *rng.pick(&[0u64, 1, 2, 3, 4, 6, 1000000]), "perReq": rng.below(2), "cancel": cancel, "ord": rng.below(2), "lazy": if cancel == 1 && rng.pct(35) { 1 } else { 0 }})
+        json!({"T": *rng.pick(&[0u64, 1, 2, 3, 4, 6, 1000000]), "perReq": rng.below(2), "cancel": cancel, "ord": rng.below(2), "sib": rng.below(2), "lazy": if cancel == 1 && rng.pct(35) { 1 } else { 0 }})
     }
     fn build(&mut self, cfg: &Value, sim: &mut Sim) {
         // T >= 1000000 stands for "no deadline": Duration::MAX, fixed or per request
@@ -52,14 +53,25 @@ impl Adapter for TimeLimiterAd {
         let cancel = cfg["cancel"].as_u64().unwrap() == 1;
         let ord = cfg["ord"].as_u64().unwrap_or(0) == 1;
         let inner = Inner::new(&sim.w);
+        // cfg.sib = 1: a second time limiter built from the same layer value has calls of its own in flight
+        self.sib.clear();
+        let sib = cfg["sib"].as_u64().unwrap_or(0) == 1;
         let f = move |r: &Req| if unbounded { Duration::MAX } else { Duration::from_millis(r.key as u64) };
         self.mkf = Some(if cfg["perReq"].as_u64().unwrap() == 1 {
             let b = TimeLimiterLayer::builder();
             let layer = if ord { b.cancel_running_future(cancel).timeout_fn(f).build() } else { b.timeout_fn(f).cancel_running_future(cancel).build() };
+            if sib {
+                let w2 = sibling_world();
+                self.sib.push(sibling_traffic(layer.layer(Inner::new(&w2)), w2, 4));
+            }
             mkfn!(layer.layer(inner))
         } else {
             let b = TimeLimiterLayer::builder();
             let layer = if ord { b.cancel_running_future(cancel).timeout_duration(t).build() } else { b.timeout_duration(t).cancel_running_future(cancel).build() };
+            if sib {
+                let w2 = sibling_world();
+                self.sib.push(sibling_traffic(layer.layer(Inner::new(&w2)), w2, 4));
+            }
             mkfn!(layer.layer(inner))
         });
     }
@@ -88,5 +100,6 @@ impl Adapter for TimeLimiterAd {
     }
     fn teardown(&mut self) {
         self.mkf = None;
+        self.sib.clear();
     }
 }
